@@ -64,6 +64,7 @@ type summary struct {
 
 // found is a violation located at a run index.
 type found struct {
+	From   int // first run index of the worker process that found it
 	I      int
 	Seed   uint64
 	Viol   Violation
@@ -179,6 +180,9 @@ func runChunk(bin, prop string, seed uint64, from, to int, order string, extra .
 	}
 	werr := cmd.Wait()
 	close(done)
+	if cr.viol != nil {
+		cr.viol.From = from
+	}
 	if hung {
 		cr.err = fmt.Errorf("worker made no progress for %v in run %d of %s (a loop outside the simulator's reach?)", watchdog, last, prop)
 		return cr
@@ -195,14 +199,14 @@ func runChunk(bin, prop string, seed uint64, from, to int, order string, extra .
 				cr.err = fmt.Errorf("race report located in the harness/simulator (run %d):\n%s", last, clip(es, 6000))
 				return cr
 			}
-			cr.viol = &found{I: last, Viol: Violation{Class: prop + ":data-race", Key: raceKey(es), Detail: clip(es, 6000)}, Race: es}
+			cr.viol = &found{From: from, I: last, Viol: Violation{Class: prop + ":data-race", Key: raceKey(es), Detail: clip(es, 6000)}, Race: es}
 			cr.sum = &summary{Next: last + 1, To: to}
 			if order == "desc" {
 				cr.sum.Next = last - 1
 			}
 		case strings.Contains(es, "fatal error:") || strings.Contains(es, "panic:") || strings.Contains(es, "goroutine "):
 			// the process died: a crash of the library inside a run is a finding of that run
-			cr.viol = &found{I: last, Viol: Violation{Class: prop + ":process-crash", Key: crashKey(es), Detail: clip(es, 4000)}}
+			cr.viol = &found{From: from, I: last, Viol: Violation{Class: prop + ":process-crash", Key: crashKey(es), Detail: clip(es, 4000)}}
 			cr.sum = &summary{Next: last + 1, To: to}
 		default:
 			cr.err = fmt.Errorf("worker exited with %v (run %d)\n%s", werr, last, clip(es, 3000))
@@ -221,78 +225,88 @@ func clip(s string, n int) string {
 	return s
 }
 
-// harnessRace: a report whose innermost non-runtime frame on either side is in the harness or
-// the simulator is a bug of the machinery (DESIGN.md §2.2).
-func harnessRace(report string) bool {
-	blocks := raceBlocks(report)
-	for _, b := range blocks {
-		f := innermostFrame(b)
-		if f == "" {
-			continue
-		}
-		if strings.HasPrefix(f, "verif/simrt.") || strings.HasPrefix(f, "main.") || strings.HasPrefix(f, "verif/worker.") {
-			return true
-		}
-	}
-	return false
+// A race report is a verdict about the library only when one of the two accesses is a WRITE
+// whose innermost jsonpath/harness frame lies in the library.  Anything else (both sides in
+// the harness or simulator, or a harness write against a library read) is a bug of the
+// machinery (DESIGN.md §2.2) and ends the check with status 2.
+type raceSide struct {
+	write  bool
+	owner  string // "lib", "harness", ""
+	frame  string
+	frames []string
 }
 
-// raceBlocks returns the two access stacks of the first report.
-func raceBlocks(report string) [][]string {
-	var blocks [][]string
-	var cur []string
-	in := false
+func raceSides(report string) []raceSide {
+	var sides []raceSide
+	var cur *raceSide
+	flush := func() {
+		if cur != nil {
+			for _, f := range cur.frames {
+				name := f
+				if i := strings.LastIndex(name, "("); i > 0 {
+					name = name[:i]
+				}
+				switch {
+				case strings.HasPrefix(name, "github.com/AsaiYusuke/jsonpath."):
+					cur.owner, cur.frame = "lib", strings.TrimPrefix(name, "github.com/AsaiYusuke/jsonpath.")
+				case strings.HasPrefix(name, "verif/simrt.") || strings.HasPrefix(name, "main.") || strings.HasPrefix(name, "verif/worker."):
+					cur.owner, cur.frame = "harness", name
+				default:
+					continue
+				}
+				break
+			}
+			sides = append(sides, *cur)
+			cur = nil
+		}
+	}
 	for _, l := range strings.Split(report, "\n") {
 		t := strings.TrimSpace(l)
+		low := strings.ToLower(t)
 		switch {
-		case strings.HasPrefix(t, "Write at ") || strings.HasPrefix(t, "Read at ") || strings.HasPrefix(t, "Previous write at ") || strings.HasPrefix(t, "Previous read at ") ||
-			strings.HasPrefix(t, "Atomic") || strings.HasPrefix(t, "Previous atomic"):
-			if in && len(cur) > 0 {
-				blocks = append(blocks, cur)
-			}
-			cur, in = nil, true
+		case strings.HasPrefix(low, "write at ") || strings.HasPrefix(low, "previous write at ") || strings.HasPrefix(low, "atomic write") || strings.HasPrefix(low, "previous atomic write"):
+			flush()
+			cur = &raceSide{write: true}
+		case strings.HasPrefix(low, "read at ") || strings.HasPrefix(low, "previous read at ") || strings.HasPrefix(low, "atomic read") || strings.HasPrefix(low, "previous atomic read"):
+			flush()
+			cur = &raceSide{}
 		case strings.HasPrefix(t, "Goroutine ") || strings.HasPrefix(t, "====="):
-			if in && len(cur) > 0 {
-				blocks = append(blocks, cur)
-			}
-			cur, in = nil, false
-		case in && t != "" && !strings.HasPrefix(t, "/") && !strings.Contains(t, ".go:"):
-			cur = append(cur, t)
+			flush()
+		case cur != nil && t != "" && !strings.HasPrefix(t, "/") && !strings.Contains(t, ".go:") && !strings.HasPrefix(t, "["):
+			cur.frames = append(cur.frames, t)
 		}
-		if len(blocks) >= 2 {
+		if len(sides) >= 2 {
 			break
 		}
 	}
-	return blocks
-}
-
-func innermostFrame(frames []string) string {
-	for _, f := range frames {
-		if strings.HasPrefix(f, "runtime.") || strings.HasPrefix(f, "sync.") || strings.HasPrefix(f, "sync/atomic.") || strings.HasPrefix(f, "internal/") {
-			continue
-		}
-		if i := strings.Index(f, "("); i > 0 {
-			f = f[:i]
-		}
-		return f
+	flush()
+	if len(sides) > 2 {
+		sides = sides[:2]
 	}
-	return ""
+	return sides
 }
 
-// raceKey identifies a race by the two innermost library functions.
+func harnessRace(report string) bool {
+	for _, s := range raceSides(report) {
+		if s.write && s.owner == "lib" {
+			return false
+		}
+	}
+	return true
+}
+
+// raceKey identifies a race by the two innermost library/harness functions.
 func raceKey(report string) string {
-	bl := raceBlocks(report)
 	var ks []string
-	for _, b := range bl {
-		ks = append(ks, trimPkg(innermostFrame(b)))
+	for _, s := range raceSides(report) {
+		rw := "read "
+		if s.write {
+			rw = "write "
+		}
+		ks = append(ks, rw+s.frame)
 	}
 	sort.Strings(ks)
 	return strings.Join(ks, " <-> ")
-}
-
-func trimPkg(f string) string {
-	f = strings.TrimPrefix(f, "github.com/AsaiYusuke/jsonpath.")
-	return f
 }
 
 func crashKey(es string) string {
